@@ -289,6 +289,83 @@ def run(run):
                           'the position codec for versions on either side of '
                           'the layout switch disturb each other', errors[0])
 
+    # ---- one context, its version reassigned by another thread ----------------
+    # (what connect() does to the connection's context when negotiation ends,
+    # while a user thread is building packets): once the reassignment is over,
+    # the codec must follow the context's *current* version
+    if run.shard in (0, 1):
+        import sys
+        import threading
+        from ..probes.linemon import LineMonitor
+        stale = []
+        for rnd in range(40 if thorough else 12):
+            ctx = ConnectionContext(protocol_version=757)
+            stop = threading.Event()
+
+            def user():
+                while not stop.is_set():
+                    Position.send_with_context((1, 2, 3), Sink(), ctx)
+
+            def negotiator(final):
+                for v in (404, 757, 340, 578, final):
+                    ctx.protocol_version = v
+            final = (404, 757, 47, 498)[rnd % 4]
+            with LineMonitor(files=['minecraft/networking/connection.py',
+                                    'minecraft/utility.py'],
+                             yield_prob=0.3, seed=rnd + run.seed * 1000):
+                tu = threading.Thread(target=user)
+                tn = threading.Thread(target=negotiator, args=(final,))
+                tu.start()
+                tn.start()
+                tn.join(30.0)
+                stop.set()
+                tu.join(30.0)
+            lay = trace_layout(final)
+            for triple in ((1, 2, 3), (-5, 7, 9)):
+                sink = Sink()
+                Position.send_with_context(triple, sink, ctx)
+                exp = rw.pack_position(*triple, lay)
+                back = Position.read_with_context(Stream(exp), ctx)
+                run.count('position.calls_after_concurrent_reassignment')
+                if sink.value() != exp or tuple(back) != triple:
+                    stale.append({'final_version': final, 'triple': triple,
+                                  'got': sink.value(), 'expected': exp,
+                                  'back': tuple(back)})
+        if stale:
+            run.violation('position/stale-after-concurrent-reassignment',
+                          'after another thread had reassigned the version of '
+                          'a context that was in use, the position codec kept '
+                          'using the layout of an earlier version', stale[0])
+
+    # ---- versions registered at run time --------------------------------------
+    if run.shard == 0:
+        import json
+        import subprocess
+        import sys
+        from .. import core
+        p = subprocess.run([sys.executable, '-m', 'vf.checks.c04_runtime'],
+                           cwd=core.VERIF_DIR, stdout=subprocess.PIPE,
+                           stderr=subprocess.PIPE, timeout=120)
+        if p.returncode:
+            run.inconclusive_because('run-time registration helper failed: %s'
+                                     % p.stderr.decode()[-300:])
+        else:
+            snap = json.loads(p.stdout.decode())
+            run.count('position.runtime_registered_versions', 3)
+            want = {'758': 'xzy', '10002': 'xzy', '10001': 'xyz', '47': 'xyz',
+                    '757': 'xzy', '404': 'xyz', '477': 'xzy'}
+            for pv_, lay in want.items():
+                exp = rw.pack_position(1, 2, 3, lay).hex()
+                got = snap.get(pv_, {})
+                if got.get('encoded') != exp or \
+                        tuple(got.get('back') or ()) != (1, 2, 3):
+                    run.violation('position/runtime-registered-version',
+                                  'after versions were registered at run time '
+                                  '(records extended, tables rebuilt) the '
+                                  'position codec does not follow the version '
+                                  'list', {'pv': int(pv_), 'expected_layout':
+                                           lay, 'snapshot': got})
+
     # chunk section positions (no context)
     sec = list(itertools.product(axis_values(22), axis_values(20),
                                  axis_values(22)))
@@ -327,6 +404,8 @@ def run(run):
                                               'xzy')})
         run.require('layout_trace_versions', 300)
     run.require('layout.xyz', 100)
+    run.require('position.runtime_registered_versions', 1)
+    run.require('position.calls_after_concurrent_reassignment', 10)
     run.require('layout.xzy', 100)
     run.require('record.new', 10)
     run.require('record.old', 100)
